@@ -201,6 +201,9 @@ def c07c(ctx):
                 elif isinstance(par, ast.Return) or isinstance(par, ast.Lambda):
                     ctx.ok(construct, '%s(...) is returned to a caller (checked: TileLocker.lock -> TileManager.lock -> '
                            '`with` sites; SemLock lambdas -> `with self.lock()`; _try_lock -> FileLock.lock)' % simple_name(x), where)
+                elif isinstance(par, ast.Assign) and len(par.targets) == 1 and isinstance(par.targets[0], ast.Name) and \
+                        _local_lock_use(x, par.targets[0].id):
+                    ctx.ok(construct, '%s(...) is bound to a local whose every use is a `with` item or a return' % simple_name(x), where)
                 else:
                     ctx.bad(construct, '%s(...) is neither a `with` item nor returned to a caller that uses it as one: '
                             'no release on exceptional exits' % simple_name(x), where)
@@ -222,6 +225,15 @@ def c07c(ctx):
 
 def _path_without(g, start, rel):
     return g.EXIT in g.reachable(start, avoid=set(rel), no_exc=True) and start not in rel
+
+
+def _local_lock_use(call, name):
+    """the local `name` (bound to a lock constructor call) is used only as a `with` item or returned, at least once"""
+    f = enclosing(call, (ast.FunctionDef, ast.Lambda))
+    if f is None:
+        return False
+    uses = [x for x in ast.walk(f) if isinstance(x, ast.Name) and x.id == name and isinstance(x.ctx, ast.Load)]
+    return bool(uses) and all(isinstance(getattr(u, '_parent', None), (ast.withitem, ast.Return)) for u in uses)
 
 
 def _enclosing_name(x):
@@ -367,9 +379,14 @@ def c07g(ctx):
         fn = ctx.fn(qn)
         g = fn.cfg
         ok = True
+        fdefs = Defs(fn.node)
         for p in g.preds()[g.EXIT]:
             st = g.stmt[p]
-            ok = ok and isinstance(st, ast.Return) and is_call(st.value, 'LockFile')
+            v = st.value if isinstance(st, ast.Return) else None
+            if isinstance(v, ast.Name):
+                ds = fdefs.of(v.id)
+                v = ds[0][0] if ds and all(is_call(d[0], 'LockFile') and d[1] is None for d in ds) else v
+            ok = ok and isinstance(st, ast.Return) and is_call(v, 'LockFile')
         ctx.check(ok and bool(g.preds()[g.EXIT]), fn.short + ':returns-lock', 'every normal exit of _try_lock returns a LockFile(...) (no fall-through None)', fn,
                   fail='_try_lock can return without a LockFile: FileLock.lock() marks the lock as held although nothing was locked')
     lk = ctx.fn(LOCK + ':FileLock.lock')
